@@ -332,8 +332,129 @@ class Fn:
         return dict(name=name, text=text, kinds=self.kinds, consts=sorted(self.consts), planted=planted_id)
 
 
+def one_statement_per_line(text):
+    """re-flow a generated function so that every simple statement stands on its own line (the guarded statement of an
+    `if (..) stmt;` / loop header too): line coverage of a native run then tells whether a flagged statement was executed"""
+    out, line, depth, i, n = [], "", 0, 0, len(text)
+    indent = 0
+    def flush():
+        nonlocal line
+        if line.strip():
+            out.append("    " * max(indent, 0) + line.strip())
+        line = ""
+    pending_header = False      # inside `if (` / `for (` / `while (` / `switch (` parentheses
+    header_depth = 0
+    while i < n:
+        ch = text[i]
+        if ch in "\"'":
+            j = i + 1
+            while j < n and text[j] != ch:
+                j += 2 if text[j] == "\\" else 1
+            line += text[i:j + 1]
+            i = j + 1
+            continue
+        if ch == "(":
+            depth += 1
+            if depth == 1 and line.strip().split()[-1:] and line.strip().split()[-1] in ("if", "for", "while", "switch") :
+                pending_header, header_depth = True, depth
+            line += ch
+        elif ch == ")":
+            line += ch
+            if pending_header and depth == header_depth:
+                pending_header = False
+                # what follows the header?
+                j = i + 1
+                while j < n and text[j] in " \n":
+                    j += 1
+                if j < n and text[j] not in "{;":
+                    flush()
+                    out.append(None)         # marker: the next statement is nested one level deeper
+            depth -= 1
+        elif depth > 0:
+            line += ch
+        elif ch == "{":
+            # an initialiser brace (`= {0}`, `= {{0}}`, `{ 100 }` after `=`) stays on the line
+            if line.rstrip().endswith("=") or line.rstrip().endswith(",") and "=" in line or line.rstrip().endswith("{") and "=" in line:
+                j, d = i, 0
+                while j < n:
+                    d += text[j] == "{"
+                    d -= text[j] == "}"
+                    j += 1
+                    if d == 0:
+                        break
+                line += text[i:j]
+                i = j
+                continue
+            line += ch
+            flush()
+            indent += 1
+        elif ch == "}":
+            flush()
+            indent -= 1
+            line = "}"
+            j = i + 1
+            while j < n and text[j] in " \n":
+                j += 1
+            if text[j:j + 4] == "else" or text[j:j + 5] == "while" and out and False:
+                pass
+            else:
+                # `} s = { 5 }, *p = 0;` (struct declarators) continue on the same line
+                if j < n and (text[j].isalnum() or text[j] in "*_") and text[j:j + 4] != "else" and _in_struct_decl(out):
+                    pass
+                else:
+                    flush()
+        elif ch == ";":
+            line += ch
+            flush()
+        elif ch == "\n":
+            if line.strip() and not line.strip().endswith((";", "{", "}")):
+                line += " "
+            else:
+                flush()
+        else:
+            line += ch
+            if line.strip() == "else":
+                j = i + 1
+                while j < n and text[j] in " \n":
+                    j += 1
+                if j < n and text[j] not in "{" and text[j:j + 2] != "if":
+                    flush()
+                    out.append(None)
+        i += 1
+    flush()
+    # resolve nesting markers
+    res, bump = [], 0
+    for l in out:
+        if l is None:
+            bump += 1
+            continue
+        res.append("    " * bump + l)
+        if bump and not l.strip().startswith(("if ", "if(", "for ", "while ", "else")):
+            bump = 0
+    return "\n".join(res) + "\n"
+
+
+def _in_struct_decl(out):
+    k = len(out) - 1
+    depth = 0
+    while k >= 0:
+        l = out[k]
+        if l is not None:
+            s = l.strip()
+            if s == "}":
+                depth += 1
+            elif s.endswith("{"):
+                if depth == 0:
+                    return s.startswith("struct")
+                depth -= 1
+        k -= 1
+    return False
+
+
 def make_function(rng, name, planted=False):
-    return Fn(rng, planted).build(name)
+    f = Fn(rng, planted).build(name)
+    f["text"] = one_statement_per_line(f["text"])
+    return f
 
 
 def arg_vectors(rng, fn, n):
